@@ -178,6 +178,8 @@ def check(ctx):
         all(cl[0].id in M.cfg.reachable(c.id, removed_nodes=yields) for c in cyc)
     ctx.check(ok, "T3-runner", mr, "STOP = final log(), then cycle() if keep and reuse, then close()", "the last records must be logged and flushed before the files close")
     every_run_logs(ctx)
+    from .c39 import order_comes_from_keys
+    order_comes_from_keys(ctx, "T4-order")
     defect_scope(ctx, "D-scope", [m for m in L.methods.values()] + [m for m in ctx.cls("logging", "Logger").methods.values()],
                  max_depth=1, floor=30, label="scope: Log and Logger methods")
 
